@@ -738,6 +738,10 @@ pub struct EncCase {
     pub txt_seed: u64,
     /// whitespace after the last sample (may be empty: end of input right after a digit)
     pub txt_tail: Hex,
+    /// leading zeros written before header fields / text samples (a decimal number may be spelled with any number of
+    /// them): [binary header, text header, text samples], 0..=12 each
+    #[serde(default)]
+    pub zero_pad: [u8; 3],
 }
 
 fn enc_case() -> BoxedStrategy<EncCase> {
@@ -749,34 +753,38 @@ fn enc_case() -> BoxedStrategy<EncCase> {
         [gap(), gap(), gap()],
         pvec(ws_byte(), 1..=3),
         (0u8..6, any::<u64>()),
-        pvec(ws_byte(), 0..=2),
+        (pvec(ws_byte(), 0..=2), prop_oneof![3 => Just([0u8; 3]), 2 => [0u8..=12, 0u8..=12, 0u8..=12]]),
     )
         .prop_flat_map(|(head, bg, bf, tg, tf, style, tail)| {
             let (w, h, gray, _) = head;
             let n = (w * h * if gray { 1 } else { 3 }) as usize;
             (Just((head, bg, bf, tg, tf, style, tail)), pvec(adv_byte(), n))
         })
-        .prop_map(|(((w, h, gray, max), bin_gaps, bin_fin, txt_gaps, tf, (txt_style, txt_seed), tail), px)| {
+        .prop_map(|(((w, h, gray, max), bin_gaps, bin_fin, txt_gaps, tf, (txt_style, txt_seed), (tail, zero_pad)), px)| {
             let px = if max == 255 { px } else { px.into_iter().map(|b| (b as u16 % (max + 1)) as u8).collect() };
-            EncCase { w, h, gray, max, px: Hex(px), bin_gaps, bin_fin, txt_gaps, txt_fin: Hex(tf), txt_style, txt_seed, txt_tail: Hex(tail) }
+            EncCase { w, h, gray, max, px: Hex(px), bin_gaps, bin_fin, txt_gaps, txt_fin: Hex(tf), txt_style, txt_seed, txt_tail: Hex(tail), zero_pad }
         })
         .boxed()
 }
 
-fn put_header(o: &mut Vec<u8>, magic: &[u8], gaps: &[Hex; 3], w: u32, h: u32, max: u16) {
+fn put_header(o: &mut Vec<u8>, magic: &[u8], gaps: &[Hex; 3], w: u32, h: u32, max: u16, pad: u8) {
+    let z = vec![b'0'; pad as usize];
     o.extend_from_slice(magic);
     o.extend_from_slice(&gaps[0].0);
+    o.extend_from_slice(&z);
     o.extend_from_slice(w.to_string().as_bytes());
     o.extend_from_slice(&gaps[1].0);
+    o.extend_from_slice(&z);
     o.extend_from_slice(h.to_string().as_bytes());
     o.extend_from_slice(&gaps[2].0);
+    o.extend_from_slice(&z);
     o.extend_from_slice(max.to_string().as_bytes());
 }
 
 /// The harness's own encoders (independent of write_ppm).
 pub fn encode_binary(c: &EncCase) -> Vec<u8> {
     let mut o = Vec::new();
-    put_header(&mut o, if c.gray { b"P5" } else { b"P6" }, &c.bin_gaps, c.w, c.h, c.max);
+    put_header(&mut o, if c.gray { b"P5" } else { b"P6" }, &c.bin_gaps, c.w, c.h, c.max, c.zero_pad[0]);
     o.push(c.bin_fin);
     o.extend_from_slice(&c.px.0);
     o
@@ -784,7 +792,7 @@ pub fn encode_binary(c: &EncCase) -> Vec<u8> {
 
 pub fn encode_text(c: &EncCase) -> Vec<u8> {
     let mut o = Vec::new();
-    put_header(&mut o, if c.gray { b"P2" } else { b"P3" }, &c.txt_gaps, c.w, c.h, c.max);
+    put_header(&mut o, if c.gray { b"P2" } else { b"P3" }, &c.txt_gaps, c.w, c.h, c.max, c.zero_pad[1]);
     o.extend_from_slice(&c.txt_fin.0);
     let row = (c.w * if c.gray { 1 } else { 3 }).max(1) as usize;
     let mut sm = Sm(c.txt_seed);
@@ -803,6 +811,10 @@ pub fn encode_text(c: &EncCase) -> Vec<u8> {
                 }
             }
         }
+        // every third sample carries the leading zeros
+        if c.zero_pad[2] > 0 && i % 3 == (c.txt_seed % 3) as usize {
+            o.extend(std::iter::repeat(b'0').take(c.zero_pad[2] as usize));
+        }
         o.extend_from_slice(s.to_string().as_bytes());
     }
     if !c.px.0.is_empty() {
@@ -816,6 +828,7 @@ pub fn check_encodings(c: &EncCase, obs: &mut Obs) -> Check {
     let per = if c.gray { 1 } else { 3 };
     ensure!(w <= 64 && h <= 64 && c.px.0.len() == (w * h * per) as usize, "bad-case", "sample array does not match the dims");
     ensure!((1..=255).contains(&c.max) && c.px.0.iter().all(|&b| b as u16 <= c.max), "bad-case", "samples exceed maxval, or maxval outside 1..=255");
+    ensure!(c.zero_pad.iter().all(|&z| z <= 16), "bad-case", "too many leading zeros");
     ensure!(c.bin_gaps.iter().chain(c.txt_gaps.iter()).all(|g| valid_gap(&g.0)), "bad-case", "a header gap is not whitespace + whitespace-preceded comments");
     ensure!(is_ws(c.bin_fin) && !c.txt_fin.0.is_empty() && c.txt_fin.0.iter().chain(c.txt_tail.0.iter()).all(|&b| is_ws(b)), "bad-case", "terminators must be whitespace");
     let bin = encode_binary(c);
@@ -836,6 +849,11 @@ pub fn check_encodings(c: &EncCase, obs: &mut Obs) -> Check {
     let long_gap = c.bin_gaps.iter().chain(c.txt_gaps.iter()).any(|g| g.0.len() > 1);
     if has_comment {
         obs.class("header:has-comment");
+    }
+    if c.zero_pad.iter().any(|&z| z >= 8) {
+        obs.class("numbers:>= 8 leading zeros somewhere");
+    } else if c.zero_pad.iter().any(|&z| z > 0) {
+        obs.class("numbers:1..7 leading zeros somewhere");
     }
     if long_gap {
         obs.class("header:multi-byte-gap");
@@ -933,7 +951,7 @@ enum Mu {
 }
 
 const FIELD_TOKENS: &[&[u8]] = &[
-    b"0", b"00", b"1", b"2", b"7", b"007", b"255", b"256", b"65535", b"65536", b"65537", b"2147483647", b"2147483648", b"4294967295",
+    b"0", b"00", b"1", b"2", b"7", b"007", b"00000000003", b"0000000000000000000002", b"00000000000", b"000000000255", b"255", b"256", b"65535", b"65536", b"65537", b"2147483647", b"2147483648", b"4294967295",
     b"4294967296", b"4294967297", b"18446744073709551616", b"99999999999999999999999", b"-1", b"-0", b"+3", b"abc", b"", b"1.5", b"0x10",
     b"1e3", b"\xff", b"1#", b"#", b"1_0", b"\xd9\xa3",
 ];
@@ -1211,6 +1229,7 @@ pub fn seed_corpus() -> Vec<(String, Vec<u8>)> {
             txt_style: k as u8 + 1,
             txt_seed: k as u64,
             txt_tail: g(if k % 2 == 0 { b"\n" } else { b"" }),
+            zero_pad: [0, 0, 0],
         };
         v.push((format!("gen-{k}-binary"), encode_binary(&c)));
         v.push((format!("gen-{k}-text"), encode_text(&c)));
